@@ -30,10 +30,10 @@ const mst = "m0"
 
 // Config is one execution configuration of a query.
 type Config struct {
-	Server     int    `json:"server"` // 0: ptnum-pernode 1, 1: ptnum-pernode 4
-	InnerChunk int    `json:"inner_chunk_size,omitempty"`
-	ChunkSize  int    `json:"chunk_size,omitempty"` // >0: chunked=true&chunk_size=
-	Parallel   int    `json:"chunk_reader_parallel,omitempty"`
+	Server     int `json:"server"` // 0: ptnum-pernode 1, 1: ptnum-pernode 4
+	InnerChunk int `json:"inner_chunk_size,omitempty"`
+	ChunkSize  int `json:"chunk_size,omitempty"` // >0: chunked=true&chunk_size=
+	Parallel   int `json:"chunk_reader_parallel,omitempty"`
 }
 
 func (c Config) params() map[string]string {
@@ -219,7 +219,7 @@ func (w *world) exec(op Op) {
 
 type gen struct {
 	counter     int
-	noOverwrite bool            // never write a (series,time) in two different requests
+	noOverwrite bool // never write a (series,time) in two different requests
 	request     int
 	written     map[string]int // (series,time) -> request number
 }
@@ -577,10 +577,14 @@ func runCase(mode string) func(t *rapid.T, c *ev.Case) {
 			lser := append([]map[string]string{tagSets[3]}, tagSets[:rapid.IntRange(1, 3).Draw(t, "nser")]...)
 			nser := len(lser)
 			span := rapid.IntRange(6, 16).Draw(t, "span")
+			onlySeries := -1 // >= 0: the next layer writes this series only
 			layer := func(label string, from, to, density int) []hist.PointJ {
 				g.request++
 				var ps []hist.PointJ
 				for s := 0; s < nser; s++ {
+					if onlySeries >= 0 && s != onlySeries {
+						continue
+					}
 					for k := from; k < to; k++ {
 						if rapid.IntRange(0, 9).Draw(t, label+"skip") >= density && !(label == "base" && k == from) {
 							continue // (the first cell of every series is always written in the base layer: every series and tag key exists)
@@ -620,7 +624,29 @@ func runCase(mode string) func(t *rapid.T, c *ev.Case) {
 			}
 			// ordered file: the upper part of the span (and sometimes everything)
 			lo := rapid.IntRange(0, span/2).Draw(t, "orderedFrom")
-			put(layer("base", lo, span+4, 8), true, "layer:ordered-file")
+			if nser >= 2 && rapid.IntRange(0, 2).Draw(t, "staggered") > 0 {
+				// series progress at different speeds: one series stops early in the first ordered file (whose time range, set by the
+				// other series, reaches further) and continues in a second ORDERED file; the rewrites below then fall after its chunk
+				// of the first file, inside the first file's range and inside its range in the second file
+				short := rapid.IntRange(0, nser-1).Draw(t, "shortSeries")
+				cut := rapid.IntRange(lo+1, span).Draw(t, "shortUntil")
+				onlySeries = -1
+				var base []hist.PointJ
+				for sidx := 0; sidx < nser; sidx++ {
+					onlySeries = sidx
+					hi := span + 4
+					if sidx == short {
+						hi = cut
+					}
+					base = append(base, layer("base", lo, hi, 8)...)
+				}
+				put(base, true, "layer:ordered-file")
+				onlySeries = short
+				put(layer("cont", cut, span+4, 9), true, "layer:second-ordered-file-continuing-one-series")
+				onlySeries = -1
+			} else {
+				put(layer("base", lo, span+4, 8), true, "layer:ordered-file")
+			}
 			// 1-2 out-of-order files below / inside the flushed range
 			for k := 0; k < rapid.IntRange(1, 2).Draw(t, "nooo"); k++ {
 				put(layer("ooo", 0, span, 5), true, "layer:out-of-order-file")
@@ -749,9 +775,11 @@ func shapeOf(q qref.Query) string {
 
 func TestRawSelections(t *testing.T) { rapid.Check(t, ev.Prop(prop, "raw_selections", runCase("raw"))) }
 func TestAggregates(t *testing.T)    { rapid.Check(t, ev.Prop(prop, "aggregates", runCase("agg"))) }
-func TestOverwriteLayers(t *testing.T) { rapid.Check(t, ev.Prop(prop, "overwrite_layers", runCase("layers"))) }
-func TestLimitLayouts(t *testing.T)  { rapid.Check(t, ev.Prop(prop, "limit_layouts", runCase("limit"))) }
-func TestTimeBuckets(t *testing.T)   { rapid.Check(t, ev.Prop(prop, "time_buckets", runCase("bucket"))) }
+func TestOverwriteLayers(t *testing.T) {
+	rapid.Check(t, ev.Prop(prop, "overwrite_layers", runCase("layers")))
+}
+func TestLimitLayouts(t *testing.T) { rapid.Check(t, ev.Prop(prop, "limit_layouts", runCase("limit"))) }
+func TestTimeBuckets(t *testing.T)  { rapid.Check(t, ev.Prop(prop, "time_buckets", runCase("bucket"))) }
 
 type violation struct{ msg string }
 
